@@ -48,6 +48,9 @@ type rkey struct {
 	typ     string // "", string, hash, set, list, zset
 	str     []byte
 	expired bool
+	// pending: set with the short TTL and no deliberate wait since - whether it is still there depends on the clock,
+	// so nothing is asserted about it until a "sleep" (then it has expired) or an overwrite
+	pending bool
 	hash    map[string][]byte
 	set     map[string]bool
 	list    [][]byte
@@ -71,7 +74,7 @@ func (k *rkey) size() int {
 // ambiguous: the statement does not say whether such a key still has a type
 func (k *rkey) ambiguous() bool {
 	if k.typ == "string" {
-		return k.expired
+		return k.expired || k.pending
 	}
 	return k.typ != "" && k.size() == 0
 }
@@ -86,6 +89,8 @@ type redisRunner struct {
 	types  map[string]bool
 	// features
 	delRecreate, restartAfterAgg, restarts, aggUpdates, wrongType, excluded, crossType int
+	sleeps                                                                             int
+	shortSinceSleep                                                                    bool // a short TTL was handed out since the last sleep
 	deleted                                                                            map[string]bool
 }
 
@@ -147,7 +152,13 @@ func (r *redisRunner) admissible(c *rcmd) bool {
 	if c.C == "restart" || c.C == "del" || c.C == "set" {
 		return true
 	}
+	if c.C == "sleep" {
+		return true
+	}
 	k := r.key(c.Key)
+	if k.pending {
+		return false
+	}
 	if !k.ambiguous() {
 		return true
 	}
@@ -246,6 +257,16 @@ func (r *redisRunner) step(c rcmd) (fail *kvh.Fail) {
 		} else if c.TTL < 0 {
 			ttl = -time.Hour
 		}
+		switch c.TTL {
+		case 2:
+			ttl = time.Duration(math.MaxInt64) // "never expires" spelled as the longest duration there is
+		case 3:
+			ttl = c19ShortTTL
+			r.shortSinceSleep = true
+		}
+		if c.V == nil {
+			c.V = []byte{} // (a replayed case: JSON has dropped the empty value; Set(nil) would be a no-op)
+		}
 		if err := r.dts.Set(c.Key, c.V, ttl); err != nil {
 			return bad("set-error", "%v", err)
 		}
@@ -255,7 +276,7 @@ func (r *redisRunner) step(c rcmd) (fail *kvh.Fail) {
 		if k.typ == "" && r.deleted[string(c.Key)] {
 			r.delRecreate++
 		}
-		*k = rkey{typ: "string", str: append([]byte(nil), c.V...), expired: c.TTL < 0}
+		*k = rkey{typ: "string", str: append([]byte(nil), c.V...), expired: c.TTL < 0, pending: c.TTL == 3}
 	case "get":
 		v, err := r.dts.Get(c.Key)
 		if wrong {
@@ -449,6 +470,17 @@ func (r *redisRunner) step(c rcmd) (fail *kvh.Fail) {
 			r.deleted[string(c.Key)] = true
 		}
 		*k = rkey{}
+	case "sleep":
+		// a deliberate wait longer than the short TTL: whatever was set with it has expired now (the only direction in
+		// which the clock is relied on: at least this much time has passed)
+		time.Sleep(c19ShortTTL + c19ShortTTL/2)
+		for _, kk := range r.keys {
+			if kk.pending {
+				kk.pending, kk.expired = false, true
+			}
+		}
+		r.shortSinceSleep = false
+		r.sleeps++
 	case "type":
 		tb, err := r.dts.Type(c.Key)
 		if k.typ == "" {
@@ -504,6 +536,9 @@ func (r *redisRunner) probeAll() *kvh.Fail {
 	return nil
 }
 
+// c19ShortTTL is the only TTL whose expiry is waited for: a "sleep" command waits one and a half times as long.
+const c19ShortTTL = 30 * time.Millisecond
+
 var (
 	c19Keys = [][]byte{[]byte("a"), []byte("b"), []byte("ab"), []byte("c")}
 	// "10" and "1x" spell a score from the pool followed by another member of the pool ("0", "x"): members and
@@ -512,7 +547,7 @@ var (
 	// distinct scores, among them pairs that differ only in the last bits (an update must still be an update)
 	c19Scores = []float64{-2.5, 0, 0.5, math.Nextafter(0.5, 1), 1, 3, 100, 100.00000001, 1e10, 1e10 + 1, -0.001, 1.7e12, 1.70000000025e12,
 		// the ends of the float64 range: beyond the 64-bit integers, the largest and the smallest magnitudes, 2^53 and its neighbour
-		9223372036854775808, 1e19, -1e30, math.MaxFloat64, -math.MaxFloat64, math.SmallestNonzeroFloat64, 1e-7, 9007199254740992, 9007199254740994, -9223372036854775808}
+		9223372036854775808, 1e19, -1e30, math.MaxFloat64, -math.MaxFloat64, math.SmallestNonzeroFloat64, 1e-7, 9007199254740992, 9007199254740994, -9223372036854775808, math.Copysign(0, -1)}
 	// values whose leading bytes look like (over-long) varints, like a metadata record of another type, or are all zero
 	c19BinaryValues = [][]byte{
 		bytes.Repeat([]byte{0xff}, 12), append(bytes.Repeat([]byte{0x80}, 10), 'x'), bytes.Repeat([]byte{0xff}, 9), {0x80},
@@ -527,7 +562,7 @@ func TestC19(t *testing.T) {
 	st := kvh.StatsFor("C19")
 	st.SetRule(c19Rule,
 		"excluded by construction (counted): a command of another type, or Type, on a key whose aggregate was emptied by element removal or whose string has expired - the statement does not say whether such a key still has a type",
-		"TTLs are 0, +1h or -1h, so no outcome depends on when the check runs",
+		"TTLs are 0, +1h, -1h, the longest duration there is, or 30 ms; a key set with the 30 ms TTL is not looked at until a deliberate wait of 45 ms has passed (then it must have expired) or it has been overwritten - no outcome depends on the clock in the other direction",
 		"user keys are <= 2 bytes and can never collide with the >= 9-byte internal element keys; 6 % of the hash values and list elements are empty: the reply of a read is then the same as for an absent element, the new/existing flags, sizes and pop order are not")
 	defer finishProperty(st)
 	c19AliasProbe(t, st)
@@ -588,6 +623,9 @@ func c19Run(t *rapid.T, st *kvh.Stats) {
 	t.Repeat(map[string]func(*rapid.T){
 		"cmd": func(t *rapid.T) {
 			cmd := rcmd{C: kvh.Pick(t, c19Cmds, "cmd")}
+			if r.shortSinceSleep && kvh.Pct(t, 12, "sleep") {
+				cmd.C = "sleep"
+			}
 			if cmd.C == "restart" {
 				if !kvh.Pct(t, 50, "really") {
 					cmd.C = "get"
@@ -596,7 +634,7 @@ func c19Run(t *rapid.T, st *kvh.Stats) {
 					cmd.Opt = &o
 				}
 			}
-			if cmd.C != "restart" {
+			if cmd.C != "restart" && cmd.C != "sleep" {
 				cmd.Key = kvh.Pick(t, c19Keys, "key")
 			}
 			switch cmd.C {
@@ -608,7 +646,11 @@ func c19Run(t *rapid.T, st *kvh.Stats) {
 					// binary contents: what the bytes behind the type byte and the expiry look like must not matter
 					cmd.V = kvh.Pick(t, c19BinaryValues, "binval")
 				}
-				cmd.TTL = kvh.Pick(t, []int{0, 0, 1, -1}, "ttl")
+				cmd.TTL = kvh.Pick(t, []int{0, 0, 0, 1, -1, 2, 3}, "ttl")
+				if cur := r.key(cmd.Key); cur.typ == "string" && kvh.Pct(t, 30, "samevalue") {
+					// the value the key holds already, perhaps with another TTL ("persist by rewrite")
+					cmd.V = append([]byte{}, cur.str...)
+				}
 			case "hset", "lpush", "rpush":
 				cmd.V = []byte(fmt.Sprintf("e%d", kvh.U(t, 50, "v")))
 				if kvh.Pct(t, 8, "bine") {
@@ -648,6 +690,7 @@ func c19Run(t *rapid.T, st *kvh.Stats) {
 		}
 	}
 	lab(r.restarts > 0, "restart")
+	lab(r.sleeps > 0, "short-ttl-waited-out")
 	lab(r.restartAfterAgg > 0, "restart-after-aggregate-update")
 	lab(r.delRecreate > 0, "del-and-recreate")
 	lab(r.wrongType > 0, "wrong-type-command")
